@@ -995,8 +995,25 @@ class Executor:
             return VecV(out)
         if sty.k == "int" and is_fp(dty) or is_fp(sty) and dty.k == "int":
             raise LLUnsupported("scalar int<->float bitcast")
-        if sty.k == "vec" and dty.k == "int" or sty.k == "int" and dty.k == "vec":
-            raise LLUnsupported("vector<->scalar bitcast")
+        if sty.k == "int" and dty.k == "vec":
+            de = self.resolve(dty.elem)
+            dw = de.bits if de.k == "int" else self.sizeof(de) * 8
+            if dw * dty.n != sty.bits or isinstance(v, UndefV):
+                raise LLUnsupported("scalar->vector bitcast of mismatching width")
+            whole = z3.Int2BV(to_int(v), sty.bits)
+            out = []
+            for k in range(dty.n):
+                piece = z3.simplify(z3.Extract((k + 1) * dw - 1, k * dw, whole))
+                out.append(BVV(dw, piece) if de.k == "int" else FBits(dw, piece))
+            return VecV(out)
+        if sty.k == "vec" and dty.k == "int":
+            se = self.resolve(sty.elem)
+            sw = se.bits if se.k == "int" else self.sizeof(se) * 8
+            bits = [self.lane_bits(l, sw) for l in v.lanes]
+            whole = bits[0]
+            for b in bits[1:]:
+                whole = z3.Concat(b, whole)
+            return IntV(dty.bits, z3.BV2Int(whole, is_signed=True))
         return v
 
     def cast(self, op, v, sty: Ty, dty: Ty, st, ins):
